@@ -17,6 +17,9 @@ Fixpoint close (e : env) (t : pterm) : term :=
   | PPair a d => TPair (close e a) (close e d)
   end.
 
+(* environment of a relation body / inlined helper: parameters in order, last parameter = index 0 *)
+Definition arg_env (e : env) (args : list pterm) : env := rev (map (close e) args).
+
 Inductive goal :=
 | GFail                                   (* micro.FailureO *)
 | GSucc                                   (* micro.SuccessO *)
